@@ -41,12 +41,14 @@ Apply(e) ==
     [] e.op = "unread"     -> Unread /\ UNCHANGED other
     [] e.op = "unreadmany" -> UnreadMany(e.n) /\ UNCHANGED other
     [] e.op = "reset"      -> Reset /\ UNCHANGED other
+    [] e.op = "readmany"   -> k' = Min(k + e.n, Len(content) + 1) /\ UNCHANGED <<content, other>>    \* n reads in one step
     \* the two scanners change places: each is exactly where it was left, whatever was done with the other one meanwhile
     [] e.op = "switch"     -> content' = other[1] /\ k' = other[2] /\ other' = <<content, k>>
 
 \* (calls traced inside the library - the repository's own tests and the tokenizers as clients, hook verifEvent - carry no
 \* return value: they are judged by what the scanner reports after them)
 RetFails(e) == F(e.op = "read" /\ "ret" \in DOMAIN e => e.ret = ReadRet, "read returned the wrong character")
+            \o F(e.op = "readmany" /\ e.n >= 1 => e.ret = CharAt(content, k + e.n), "read returned the wrong character")
 
 Init == l = 1 /\ content = <<>> /\ k = 0 /\ other = <<<<>>, 0>>
 Next ==
